@@ -52,7 +52,7 @@ def register_conf(add0, CONF, TIER):
 def register_rel(add):
     """unbounded digit-relation proofs (loop contracts), shipped configuration"""
     ADDL, SHL = 'src/low/easy/relic_bn_add_low.c', 'src/low/easy/relic_bn_shift_low.c'
-    base = dict(headers=['bn_low_rel.h'], conf='base', route='proof', loops=True, defines=['VC_MAXN=128'], timeout=300,
+    base = dict(headers=['bn_low_rel.h'], conf='base', route='proof', loops=True, defines=['VC_MAXN=128'], timeout=300, arb_weave=True,
                 bound_note='all lengths up to 128 digits (8192 bits); loops closed by loop contracts')
     add('bn_addn_low.rel', ['C01', 'C08'], 'bn_addn_low', contract='bn_addn_low_rel', sources=[ADDL],
         decls='dig_t *c; const dig_t *a, *b; size_t n;', call='bn_addn_low(c, a, b, n)', **base)
